@@ -14,6 +14,7 @@ import (
 
 	"verif/fw"
 	"verif/peer"
+	"verif/ref"
 	"verif/vsched"
 )
 
@@ -36,6 +37,7 @@ type c16Case struct {
 	Max    uint32 `json:"max"`
 	Limit  int    `json:"limit,omitempty"`
 	Access string `json:"access_hex,omitempty"`
+	Cut    int    `json:"cut,omitempty"` // hpack-resume: only the first Cut octets are there at first
 }
 
 var sentinelFrame = peer.Ping(false, [8]byte{9, 9, 9, 9, 9, 9, 9, 9}).Bytes()
@@ -309,8 +311,85 @@ func c16Hpack(cs c16Case) *fw.Violation {
 	return v
 }
 
+// c16HpackResume: a header block reaches the decoder in two pieces (HEADERS + CONTINUATION). The connections
+// decode what is there field by field; when a step fails for lack of octets they keep everything from the first
+// octet of that field and go on when the rest has arrived. A step that fails must therefore leave nothing behind:
+// the fields decoded and the dynamic table at the end must be those of the block decoded in one piece.
+func c16HpackResume(cs c16Case) *fw.Violation {
+	in, _ := hex.DecodeString(cs.Hex)
+	mk := func(rule, shape, detail string) *fw.Violation {
+		return &fw.Violation{Rule: rule, Shape: shape, Detail: detail + fmt.Sprintf(" [block %s, first piece %d octets]", cs.Hex, cs.Cut), Replay: map[string]any{"family": "c16", "case": cs}}
+	}
+	rt := ref.NewTable()
+	want, werr := ref.DecodeBlock(rt, in)
+	if werr != nil {
+		return nil // only well-formed blocks are resumed
+	}
+	hp := newImplDecoder(4096)
+	defer http2.ReleaseHPACK(hp)
+	var got []ref.Field
+	var pan any
+	var failure string
+	func() {
+		defer func() { pan = recover() }()
+		hf := http2.AcquireHeaderField()
+		defer http2.ReleaseHeaderField(hf)
+		avail := append([]byte{}, in[:cs.Cut]...)
+		second := false
+		for {
+			for len(avail) > 0 {
+				rest, err := hp.Next(hf, avail)
+				if err != nil {
+					if second {
+						failure = fmt.Sprintf("with the whole block there, Next fails: %v", err)
+						return
+					}
+					break
+				}
+				got = append(got, ref.Field{Name: string(hf.KeyBytes()), Value: string(hf.ValueBytes())})
+				avail = rest
+			}
+			if second {
+				return
+			}
+			second = true
+			avail = append(append([]byte{}, avail...), in[cs.Cut:]...)
+		}
+	}()
+	if pan != nil {
+		return mk("parser-panic", "hpack-resume", fmt.Sprintf("HPACK.Next panicked: %v", pan))
+	}
+	first := in[0] & 0xf0
+	if failure != "" {
+		return mk("hpack-failed-step-left-state", fmt.Sprintf("first-byte-%#x fails-later", first), failure)
+	}
+	var wf []ref.Field
+	for _, f := range want {
+		wf = append(wf, f.Field)
+	}
+	// size updates produce no field: Next may report them as a step with an empty field; compare the non-empty ones
+	strip := func(fs []ref.Field) []ref.Field {
+		var out []ref.Field
+		for _, f := range fs {
+			if f.Name != "" {
+				out = append(out, f)
+			}
+		}
+		return out
+	}
+	if g, w := strip(got), strip(wf); !sameTable(g, w) {
+		return mk("hpack-failed-step-left-state", fmt.Sprintf("first-byte-%#x fields", first), fmt.Sprintf("decoded in two pieces the block gives %v, in one piece %v", g, w))
+	}
+	if !sameTable(implTable(hp), rt.Ents) {
+		return mk("hpack-failed-step-left-state", fmt.Sprintf("first-byte-%#x table", first), fmt.Sprintf("after decoding in two pieces the dynamic table is %v, RFC 7541 gives %v", implTable(hp), rt.Ents))
+	}
+	return nil
+}
+
 func c16Eval(cs c16Case) *fw.Violation {
 	switch cs.Family {
+	case "hpack-resume":
+		return c16HpackResume(cs)
 	case "trunc":
 		return c16Trunc(cs)
 	case "hpack":
@@ -527,6 +606,44 @@ func runC16(c *fw.Ctx) {
 		}
 	}
 	c.Family("hpack-bytes")
+	// HPACK: well-formed blocks in two pieces, every cut
+	seenBlk := map[string]bool{}
+	for _, fs := range [][]ref.Field{
+		{{Name: "a", Value: "bc"}, {Name: "a", Value: "bc"}},
+		{{Name: ":path", Value: "/xy"}, {Name: ":path", Value: "/xy"}, {Name: "k", Value: "v"}},
+		{{Name: "x-k", Value: ""}, {Name: "x-k", Value: "w"}, {Name: "x-k", Value: ""}},
+		{{Name: "cookie", Value: valOfLen(130)}, {Name: "cookie", Value: valOfLen(130)}},
+	} {
+		for rep := 0; rep < 4; rep++ {
+			for bits := 0; bits < 8; bits++ {
+				for _, upd := range []int{-1, 0, 100} {
+					t := ref.NewTable()
+					var blk []byte
+					if upd >= 0 {
+						blk = ref.EncodeSizeUpdate(blk, t, upd)
+						blk = ref.EncodeSizeUpdate(blk, t, 4096)
+					}
+					ch := ref.EncChoice{Rep: ref.Rep(rep), NameIndex: bits&1 != 0, HuffName: bits&2 != 0, HuffValue: bits&4 != 0}
+					for i, f := range fs {
+						c2 := ch
+						if i > 0 {
+							c2.Rep = ref.RepIndexed // a reference to what the first field inserted, if it did
+						}
+						blk = ref.EncodeField(blk, t, f, c2)
+					}
+					hx := hex.EncodeToString(blk)
+					if seenBlk[hx] {
+						continue
+					}
+					seenBlk[hx] = true
+					for cut := 1; cut < len(blk); cut++ {
+						do(c16Case{Family: "hpack-resume", Hex: hx, Cut: cut}, true)
+					}
+				}
+			}
+		}
+	}
+	c.Family("hpack-resume")
 	c.AddTraces(c.Evals)
 }
 
